@@ -75,6 +75,9 @@ def compare(base, pert):
 def case(item):
     spec, cuts, kinds = item
     base = runcheck.execute(spec)
+    if base["status"] == "crash" and spec.get("tree") == "fi_hedge":
+        # (these fixed-income runs are this check's own: nobody else would see them die)
+        return ("base_crash", [{"rule": "crash", "expected": "the unperturbed run completes", "observed": base["err"], "where": {"cut": -1, "kind": ["base"]}}], 0, 0)
     if base["status"] != "ok":
         return ("base_" + base["status"], [], 0, 0)
     b0 = base["b"]
@@ -331,6 +334,7 @@ def specs(tier, seed):
             for data in ("d12", "d25"):
                 out.append({"tree": "fi_hedge", "stack": {"gate": g}, "fi_weights": w, "data": data, "alpha": "exact", "late": False, "integer": False, "capital": 0.0, "rng": 0, "fee": None, "spread": None})
                 out.append({"tree": "fi_hedge", "stack": {"gate": g}, "fi_weights": w, "data": data, "alpha": "decimal", "late": False, "integer": False, "capital": 0.0, "rng": 0, "fee": "propdec", "spread": 0.25})
+                out.append({"tree": "fi_hedge", "stack": {"gate": g}, "fi_weights": w, "plain_cost_index": True, "data": data, "alpha": "exact", "late": False, "integer": False, "capital": 0.0, "rng": 0, "fee": None, "spread": None})
     if tier != "quick":
         more = [s for s in R.family("thorough", seed) if s["tree"] != "flat" or s["data"] == "d6"]
         out += more[::8]
